@@ -274,6 +274,15 @@ class MrAndersonSimulator(object):
             } for i in range(shots)
         ]
 
+        if self.parallel:
+            # Worker processes forked by multiprocessing inherit the state of numpy's global generator, so without
+            # reseeding every worker would replay the same noise. Each shot gets its own child seed. The entropy is
+            # drawn from the global generator: np.random.seed(...) before run() still makes the shots reproducible,
+            # however they are distributed over the workers. The sequential path draws nothing here.
+            entropy = np.random.randint(0, 2**32, size=4, dtype=np.uint64).tolist()
+            for arg, child in zip(arg_list, np.random.SeedSequence(entropy).spawn(shots)):
+                arg["seed"] = child.generate_state(8)
+
         # Perform computation parallel or sequentual
         if self.parallel:
             import multiprocessing
@@ -500,6 +509,10 @@ def _single_shot(args: dict) -> np.array:
     device_param = args["device_param"]
     psi0 = args["psi0"]
     qubit_layout = args["qubit_layout"]
+
+    # In parallel mode each shot comes with its own seed for numpy's global generator (see _perform_simulation).
+    if "seed" in args:
+        np.random.seed(args["seed"])
 
     # Apply gates on the circuit.
     _apply_gates_on_circuit(data, circ, device_param, qubit_layout)
